@@ -37,7 +37,7 @@ class C01(Campaign):
         return gen.knobs(async_modes=ASYNC_MODES, drivers=["sync", "sync", "inloop", "threads_in_turn"],
                          p_cond=0.6, p_unless=0.4, p_validator=0.3, p_dup_candidate=0.6,
                          p_multi_guard_provider=0.0, p_attach_style=0.25, p_prop_guard=0.15,
-                         p_from_any=0.2, p_event_obj=0.15, p_event_decl=0.2, p_decl_style=0.2, p_or_group=0.15, p_devent=0.15, p_multi_source=0.15, p_expr_guard=0.1 if rnd.random() < 0.5 else 0.0)
+                         p_from_any=0.2, p_event_obj=0.15, p_event_decl=0.2, p_decl_style=0.2, p_or_group=0.15, p_devent=0.15, p_multi_source=0.15, p_guard_any_value=0.4, p_expr_guard=0.1 if rnd.random() < 0.5 else 0.0)
 
     def scenario(self, rnd, tier):
         k = self.knobs(rnd, tier)
@@ -151,7 +151,7 @@ class C02(Campaign):
                          p_action=0.7 if dense else 0.25, p_state_action=0.6 if dense else 0.2,
                          p_conv=0.5 if dense else 0.15, p_validator=0.3, p_internal=0.2, p_self=0.25,
                          p_multi_event=0.4, p_unknown_event=0.05, p_multi_group_name=0.3,
-                         p_attach_style=0.35, p_awaitable=0.2, p_prop_guard=0.15, p_from_any=0.15, p_event_obj=0.15, p_event_decl=0.15, p_decl_style=0.2, p_or_group=0.15, p_devent=0.15, p_multi_source=0.15)
+                         p_attach_style=0.35, p_awaitable=0.2, p_prop_guard=0.15, p_from_any=0.15, p_event_obj=0.15, p_event_decl=0.15, p_decl_style=0.2, p_or_group=0.15, p_devent=0.15, p_multi_source=0.15, p_guard_any_value=0.25)
 
     def nontrivial(self, sc, ev):
         groups = 0
